@@ -43,6 +43,8 @@ pub enum Op {
     Fetch,
     /// cancel using the handle of an event that was already fetched
     CancelFetched(u16),
+    /// `fetch_next_if` with a predicate that refuses: nothing may change (incl. the queue time)
+    FetchRefused,
 }
 
 #[derive(Clone, Debug, Serialize, Deserialize, PartialEq)]
@@ -90,6 +92,7 @@ pub fn op_strategy() -> impl Strategy<Value = Op> {
         2 => any::<u16>().prop_map(Op::CancelAtCurrent),
         5 => Just(Op::Fetch),
         1 => any::<u16>().prop_map(Op::CancelFetched),
+        2 => Just(Op::FetchRefused),
     ]
 }
 
@@ -240,6 +243,7 @@ impl Drop for Heapy {
 #[derive(Clone, Copy, Default, Debug)]
 pub struct Flags {
     pub fetches: u32,
+    pub refused: u32,
     pub cancel_after_fetch: bool,
     pub tie_current: bool,
     pub cancel_at_current_indexed: bool,
@@ -581,6 +585,30 @@ pub fn interpret<E: Payload>(params: &QParams, ops: &[Op], opt: &Options) -> Res
                 let h = handles.remove(&id).expect("handle of fetched event");
                 flags.cancel_fetched = true;
                 q.cancel(h);
+            }
+            Op::FetchRefused => {
+                if pending.is_empty() {
+                    continue;
+                }
+                flags.refused += 1;
+                let mut seen = None;
+                let r = q.fetch_next_if(|t| {
+                    seen = Some(t.as_nanos());
+                    false
+                });
+                vensure!(r.is_none(), "refused-fetch-returned-event", "fetch_next_if returned an event although the predicate refused");
+                let min = pending.iter().map(|p| p.time).min().unwrap();
+                vensure!(
+                    seen == Some(min),
+                    "not-minimal",
+                    "fetch_next_if offered {seen:?} ns to the predicate while the earliest pending event is at {min} ns"
+                );
+                vensure!(
+                    q.time().as_nanos() == cur,
+                    "refused-fetch-advanced-time",
+                    "a refused fetch_next_if moved the queue time from {cur} to {} ns",
+                    q.time().as_nanos()
+                );
             }
             Op::Fetch => {
                 if pending.is_empty() {
